@@ -37,6 +37,9 @@ def run(ctx):
     for stream, kind, n in streams(ctx):
         cases = [gen(ctx, kind) for _ in range(n)]
         R.run_cases(ctx, stream, cases, PROJ, oracle, classify)
+    # history: the same maps remapped AFTER other maps of the same input on ONE IndexedAssembly object (in-process state must not matter)
+    hk = ['script', 'tightscript', 'tagged']
+    R.run_history_cases(ctx, "object-history", [R.make_case(ctx.rng, ctx.rng.choice(hk)) for _ in range(240 if ctx.thorough else 40)], PROJ, oracle, (classify if "classify" in globals() else None))
 
 
 def search(ctx, broken):
